@@ -361,7 +361,8 @@ def rule_D3(ctx):
                     negation = bool(rt) and bool(rf) and all(isinstance(x.value, ast.Constant) and x.value.value is False for x in rt) \
                         and all(isinstance(x.value, ast.Constant) and x.value.value is True for x in rf)
             if not negation:
-                if '__eq__' in ast.unparse(ne.node) or '==' in ast.unparse(ne.node):
+                code = '\n'.join(ast.unparse(x) for x in body)
+                if '__eq__' in code or '==' in code:
                     raise AnalysisError(f'{ne.key}: negation form not recognised (needs a human)')
                 r.fail(ne.key, f'{c}.__ne__', '!= must be the negation of ==', loc=ne.loc())
             else:
